@@ -169,5 +169,10 @@ func check(c arith.Case, st *core.Stats) error {
 	return nil
 }
 
-func TestC11(t *testing.T)       { core.Run(t, "C11", genCase, check) }
-func TestC11Replay(t *testing.T) { core.Replay(t, "C11", check) }
+func TestC11(t *testing.T)       { core.Run(t, "C11", genCase, checkDiff) }
+func TestC11Replay(t *testing.T) { core.Replay(t, "C11", checkDiffAll) }
+
+// the model check followed by the differential comparison with Python's decimal module
+// (one case in 1 during the search, every case on replay)
+var checkDiff = arith.WithDifferential(check, arith.DiffOpts{Value: true, Flags: true}, 1)
+var checkDiffAll = arith.WithDifferential(check, arith.DiffOpts{Value: true, Flags: true}, 1)
